@@ -128,21 +128,55 @@ def handle (op : String) (j : Json) : Except String Json := do
     match read defaultGrid lay lines with
     | .ok c => .ok (okJson (chartToJson lay lines c))
     | .error e => .ok (errJson e.toString)
+  | "c04.read_file" =>
+    -- `BMSMap.read_file` on the bytes of the file (Python's line splitting is part of the model: `pyLines`)
+    let lay ← getLayout j
+    let b ← bytesOf? (← field j "bytes")
+    match readFile defaultGrid lay b with
+    | .ok c => .ok (okJson (chartToJson lay (pyLines b) c))
+    | .error e => .ok (errJson e.toString)
   | "c04.denote" =>
+    -- the specification with its OWN lexer and header record (`denoteText`: bookLine / bookTable / bookDoc /
+    -- bookHeader); `lex_agree` replays the proved `bookDoc_parseDoc` / `bookHeader_readHeader` on the case;
+    -- `shared_defined` (only evaluated where the by-the-book lexer is silent) = the reader's lexer is more liberal
     let lay ← getBookLayout j
     let lines ← getArr bytesOf? j "lines"
-    let den := denote lay lines
+    let den := denoteText lay lines
     let g := grid defaultMaxDiv
-    let notes := match parseDoc lines with | .ok d => d.notes | .error _ => []
-    let lnobj : Bytes := match parseDoc lines with
-      | .ok d => (dictGet? d.header "LNOBJ".toList).getD []
-      | .error _ => []
+    let bdoc := bookDoc lines
+    let notes := match bdoc with | some d => d.notes | none => []
+    let lnobj : Bytes := match bdoc with
+      | some d => (dictGet? d.header "LNOBJ".toList).getD []
+      | none => []
     let tempo := match den with | some d => d.tempo | none => []
+    let lexAgree : Bool := match bdoc, parseDoc lines with
+      | some a, .ok b => decide (a.header = b.header) && decide (a.notes = b.notes)
+      | some _, .error _ => false
+      | none, _ => true
+    let hdrAgree : Bool := match bdoc with
+      | some a =>
+        (match bookHeader a.header, readHeader a.header with
+         | some x, .ok y => decide (x.title = y.title) && decide (x.artist = y.artist) && decide (x.version = y.version) &&
+             decide (x.lnEnd = y.lnEnd) && decide (x.exbpms = y.exbpms) && decide (x.samples = y.samples) &&
+             decide (x.bpm0 = y.bpm0) && decide (x.misc = y.misc)
+         | some _, .error _ => false
+         | none, _ => true)
+      | none => true
+    let sharedDefined : Bool := match bdoc with
+      | some _ => den.isSome
+      | none => (denote lay lines).isSome
     let flags := obj [("grid_compatible", Json.bool (gridCompatible g tempo)),
                       ("resnap_margins", listToJson ratToJson (resnapMargins g tempo)),
                       ("lanes_ordered", Json.bool (lanesOrdered lay notes)),
-                      ("d05", Json.bool (d05Pred lay lnobj notes))]
+                      ("d05", Json.bool (d05Pred lay lnobj notes)),
+                      ("book_lexed", Json.bool bdoc.isSome),
+                      ("shared_defined", Json.bool sharedDefined),
+                      ("lex_agree", Json.bool (lexAgree && hdrAgree))]
     .ok (okJson (obj [("den", optToJson denotationToJson den), ("flags", flags)]))
+  | "c04.file_lines" =>
+    -- `fileLines`: the lines of a file's bytes by the book (LF / CRLF / bare CR)
+    let b ← bytesOf? (← field j "bytes")
+    .ok (okJson (listToJson bytesToJson (fileLines b)))
   | "c04.layout" =>
     let n ← getStr j "layout"
     let lay ← match bookLayout n with
